@@ -230,7 +230,12 @@ class _STIXBase(collections.abc.Mapping):
 
         setting_kwargs = {}
 
-        has_custom = bool(all_custom_prop_names)
+        # (a custom property given as None or [] is dropped below like any
+        # other such property: it leaves nothing custom in the object)
+        has_custom = any(
+            assigned_properties.get(prop_name) not in (None, [])
+            for prop_name in all_custom_prop_names
+        )
         for prop_name in property_order:
 
             prop_val = assigned_properties.get(prop_name)
